@@ -778,6 +778,10 @@ def open_text(fname):
         buffering=FILE_READ_BUFFER_SIZE,
         encoding=ENCODING,
         errors=ENCODING_ERRS,
+        # No universal newlines: the kernel terminates lines with "\n"
+        # only, and a "\r" in a cmdline, an environment value or a name
+        # must be returned as is (not translated to "\n").
+        newline="\n",
     )
     try:
         # Dictates per-line read(2) buffer size. Defaults is 8k. See:
